@@ -623,8 +623,11 @@ def run_check(pid, tier):
               wall_s=round(time.time() - t0, 2), violations=len(seen),
               repo=build.REPO, harness_errors=len(harness_errors))
     if status != 2:
-        os.makedirs(os.path.join(VERIF, "evidence"), exist_ok=True)
-        with open(os.path.join(VERIF, "evidence", "%s.json" % pid), "w") as f:
+        # evidence describes runs against /repo; runs against another copy (mutants) are kept apart
+        evdir = os.path.join(VERIF, "evidence") if os.path.abspath(build.REPO) == "/repo" else \
+            os.path.join(VERIF, ".build", "evidence-other-repo")
+        os.makedirs(evdir, exist_ok=True)
+        with open(os.path.join(evdir, "%s.json" % pid), "w") as f:
             json.dump(ev, f, indent=1, sort_keys=True, default=str)
     print("%s %s seed=%d: %d cases, %d distinct non-trivial, %d violations, %.1fs" %
           (pid, tier, seed, cov["evaluations"], cov["distinct_nontrivial"], len(seen),
